@@ -14,6 +14,7 @@ from sim import simrandom
 from sim.sched import InvalidCase, Violation
 
 ID = "C17"
+NEEDS_ZYGOTE = True          # only used if a change makes gromov_hausdorff run joblib workers in processes
 TITLE = "mGH accepts every graph representation and degrades gracefully"
 CASE_TIMEOUT_S = 120.0
 PLAN = {
@@ -149,6 +150,11 @@ def _connected(g):
 
 
 def run_case(case, sched):
+    with mg.parallel_world(sched, case):
+        return _run_case(case, sched)
+
+
+def _run_case(case, sched):
     inp, cfg = case["inputs"], case["config"]
     kind = inp.get("kind")
     wf = cfg.get("warn_filter", "always")
